@@ -93,27 +93,27 @@ type Run struct {
 	covers   map[string]bool
 	observes []observeRec
 
-	threads     []*Thread
-	cur         *Thread
-	lastRun     *Thread
-	multi       bool
-	preemptions int
-	sched       []int
+	threads      []*Thread
+	cur          *Thread
+	lastRun      *Thread
+	multi        bool
+	preemptions  int
+	sched        []int
 	schedPartner []int
-	timers      []*timerEnv
-	globals     map[*ssa.Global]*Slot
-	nextObj     int
-	steps       int
-	pools       map[*Slot]*poolModel
-	cuts        map[string]bool
-	mutexes     map[*Slot]*mutexState
-	conds       map[*Slot]*condState
-	timerBySlot map[*Slot]*timerEnv
-	clock       int
-	mapOrderOff bool
-	ordS, ordU  *ordGraph
-	pure        pureOrder
-	qOrder      int // feasibility questions decided by the pure-order procedure
+	timers       []*timerEnv
+	globals      map[*ssa.Global]*Slot
+	nextObj      int
+	steps        int
+	pools        map[*Slot]*poolModel
+	cuts         map[string]bool
+	mutexes      map[*Slot]*mutexState
+	conds        map[*Slot]*condState
+	timerBySlot  map[*Slot]*timerEnv
+	clock        int
+	mapOrderOff  bool
+	ordS, ordU   *ordGraph
+	pure         pureOrder
+	qOrder       int // feasibility questions decided by the pure-order procedure
 
 	outcome Outcome
 	finding *Finding
@@ -400,6 +400,7 @@ func (r *Run) vassert(c *Term, label string) {
 		r.note(c, true)
 		return
 	}
+	orig := c // what is recorded as known must not depend on how the VC was discharged (replay determinism)
 	if c2 := r.simp(c, map[int]*Term{}); c2 != c {
 		if c2.IsTrue() {
 			if ordCheck && r.checkWith(r.tt.Not(c)) != Unsat {
@@ -428,7 +429,7 @@ func (r *Run) vassert(c *Term, label string) {
 		r.abort(OInconclusive, "solver (VC "+label+"): "+msg)
 	}
 	if res == Unsat {
-		r.note(c, true)
+		r.note(orig, true)
 		return
 	}
 	// sat: re-establish the model inside a scope so that values can be read
